@@ -329,6 +329,21 @@ func (e *SEnv) eval(sx *SX) Val {
 			sub.factSt = e.st
 		}
 		body := sub.evalBool(sx.Args[0])
+		// closed heap reads that were named for the first time under the binder keep their definition
+		for i := len(e.st.nameLog); i+1 < len(tmp.nameLog); i += 2 {
+			term, c := tmp.nameLog[i], tmp.nameLog[i+1]
+			if strings.Contains(term, "q_") {
+				continue
+			}
+			if e.st.names == nil {
+				e.st.names = map[string]string{}
+			}
+			if _, ok := e.st.names[term]; !ok {
+				e.st.pc = append(e.st.pc, app("=", c, term))
+				e.st.names[term] = c
+				e.st.nameLog = append(e.st.nameLog, term, c)
+			}
+		}
 		// carry heap components that were created lazily
 		for k, v := range tmp.heap {
 			if _, ok := e.st.heap[k]; !ok {
